@@ -25,6 +25,37 @@ The oracle is written from the property statement and the class docstrings of
 Context / fixture.py; it never looks at Context's frames to *predict* anything
 (``_stack`` layer names, ``_mode``, and the key sets of ``_record``/``_origin``
 are read only as observations / to make the state deduplication finer).
+
+Canonical state of the search (what two histories must share to be merged):
+
+* per frame, outermost first: layer name; the sorted (name, value) items; the
+  pending cleanups as an ORDERED list with multiplicity - (kind, function or
+  fixture id, args) per registration, i.e. how often and in which order each
+  callable will run when the layer ends;
+* the stack of entered mode managers; the end-of-run flag;
+* from the real object: the key sets of ``_record`` and ``_origin`` for x,y, and
+  per frame the ordered sub-list of registered callables that are the user's
+  function objects themselves rather than a wrapper.
+
+Dropped, and why merged states have the same futures: (a) concrete function /
+fixture ids are renamed by first appearance - Context never inspects them and
+the callables of one kind are interchangeable closures; (b) the calls already
+made (a callable that ran cannot run again without the model flagging an extra
+call); (c) the *values* in ``_record`` (source locations, only formatted into
+warning texts) and the ``cleanup_errors`` counter (never read by an operation of
+the alphabet); (d) wrappers whose run is silent (the dead generator of a fixture
+whose setup raised).  Every operation of the alphabet reads only: the frames'
+items (kept), the layer names (kept), the mode (kept), membership of a name in
+``_record``/``_origin`` (kept), and the pending-cleanup lists.  Of the latter the
+*run* behaviour (order, multiplicity, arguments, who raises) is what the model's
+list states and is validated by the drain of the very transition that produced
+the state (a mismatch is a violation and the state is not expanded), while the
+only delayed effect - the duplicate guard of ``add_cleanup``, which searches the
+list for the function object - depends exactly on the kept sub-list.  Because a
+wrong abstraction hides bugs silently, the search is repeated WITHOUT any
+deduplication to a smaller depth; any violation found only there is reported as
+a violation (real executions), next to a failed guard saying that the canonical
+form is too coarse.
 """
 from __future__ import print_function
 import sys
@@ -566,8 +597,25 @@ class Env(object):
         try:
             rec = self.ctx.__dict__.get("_record", {})
             org = self.ctx.__dict__.get("_origin", {})
+            # which registered callables are the user's function objects THEMSELVES (as opposed to a
+            # wrapper): the only part of the pending-cleanup lists with a delayed effect (the duplicate
+            # guard of add_cleanup looks for the function object); per frame, in order, with multiplicity,
+            # function ids renamed by first appearance
+            byid = dict((id(f), fid) for fid, f in self.funcs.items())
+            ren = {}
+            raw = []
+            for frame in reversed(self.ctx._stack):
+                ids = []
+                for c in frame.get("@cleanups", ()):
+                    fid = byid.get(id(c))
+                    if fid is not None:
+                        if fid not in ren:
+                            ren[fid] = "%s%d" % (fid[0], len(ren))
+                        ids.append(ren[fid])
+                raw.append((None, tuple(ids)))
             return (tuple(n for n in NAMES if n in rec),
-                    tuple((n, getattr(org[n], "name", str(org[n]))) for n in NAMES if n in org))
+                    tuple((n, getattr(org[n], "name", str(org[n]))) for n in NAMES if n in org),
+                    tuple(r[1] for r in raw))
         except Exception:           # pylint: disable=broad-except
             return ("?",)
 
@@ -867,10 +915,17 @@ def bfs_case_sweep(case):
 
 
 def bfs_case_nodedup(case):
-    """same transitions; violations are only *returned* (the driver compares their classes)"""
+    """same transitions; the violations travel in 'keep' (first of each class per case, with counts): the
+    driver registers those whose class the deduplicated search did not find - they are real executions"""
     out = bfs_case(case)
-    out[0]["v"] = []
-    out[0]["keep"] = out[0]["keep"] + ([],)
+    res = out[0]
+    firsts, counts = {}, {}
+    for desc, msg in res["v"]:
+        k = tuple(sorted(desc.items()))
+        firsts.setdefault(k, (desc, msg))
+        counts[k] = counts.get(k, 0) + 1
+    res["v"] = []
+    res["keep"] = res["keep"] + ([(firsts[k][0], firsts[k][1], counts[k]) for k in sorted(firsts)],)
     return out[:1]
 
 
@@ -885,6 +940,7 @@ def run_bfs(ctx, profile, maxdepth, dedup=True, name=None, snapshot=None):
     expanded = 0
     within = {0: 1}
     snap = None
+    nd_viol = {}
     for depth in range(1, maxdepth + 1):
         last = (1 if depth == maxdepth else 0) + (0 if dedup else 2)
         expanded += len(frontier)
@@ -895,8 +951,16 @@ def run_bfs(ctx, profile, maxdepth, dedup=True, name=None, snapshot=None):
         for hist, succ, fl, vc, viol in kept:
             flags.update(fl)
             vclasses.update(vc)
-            for desc, msg in viol:
-                ctx.violation(desc, msg, (profile, hist, last), "bfs_case")
+            for item in viol:
+                if dedup:
+                    ctx.violation(item[0], item[1], (profile, hist, last), "bfs_case")
+                else:
+                    k = tuple(sorted(item[0].items()))
+                    cur = nd_viol.get(k)
+                    if cur is None:
+                        nd_viol[k] = [item[0], item[1], (profile, hist, last), item[2]]
+                    else:
+                        cur[3] += item[2]
             if last in (1, 3):
                 ks = array.array("Q")
                 ks.frombytes(succ)
@@ -917,7 +981,11 @@ def run_bfs(ctx, profile, maxdepth, dedup=True, name=None, snapshot=None):
         if not frontier:
             break
     return {"seen": seen, "flags": flags, "vclasses": vclasses, "states": len(seen), "states_within": within,
-            "expanded": expanded, "depth": maxdepth, "snapshot": snap}
+            "expanded": expanded, "depth": maxdepth, "snapshot": snap, "nd_viol": nd_viol}
+
+
+def nd_viol_items(nd):
+    return [(k, tuple(val)) for k, val in nd["nd_viol"].items()]
 
 
 def cross_check(ctx, profile, dedup_seen_within, dedup_vclasses, depth):
@@ -930,6 +998,12 @@ def cross_check(ctx, profile, dedup_seen_within, dedup_vclasses, depth):
         # the 'trigger' of a bookkeeping KeyError names the route of the representative history
         return set(tuple(kv for kv in c if kv[0] != "trigger" or dict(c).get("exc") != "KeyError") for c in classes)
     new_classes = strip(nd["vclasses"]) - strip(dedup_vclasses)
+    # a violation found only without deduplication is still a real execution of the real code: it is
+    # reported as a violation (the guard below stays as the note that the canonical form is too coarse)
+    for k, (desc, msg, case, count) in sorted(nd_viol_items(nd)):
+        if strip([k]) & new_classes:
+            for _ in range(count):
+                ctx.violation(desc, msg + "  [found only by the search without state deduplication]", case, "bfs_case")
     ctx.guard(not new_states and not lost_states,
               "no-dedup cross-check [%s, depth %d]: same canonical states as the deduplicated search "
               "(%d extra, %d missing)" % (profile, depth, len(new_states), len(lost_states)))
